@@ -1,5 +1,5 @@
 #!/usr/bin/env python3
-"""usage: tools/seed_prompt.py <seeded-id> <property-id>  -- creates the scratch worktree /tmp/wt_<seeded-id> of /repo and prints the
+"""usage: tools/seed_prompt.py <seeded-id> <property-id> [focus]  -- creates the scratch worktree /tmp/wt_<seeded-id> of /repo and prints the
 prompt for a fresh sub-agent (property text only; nothing else from /verif)."""
 import json, subprocess, sys, os
 here = os.path.dirname(os.path.abspath(__file__))
@@ -10,5 +10,8 @@ if not os.path.isdir(wt):
 p = [json.loads(l) for l in open(os.path.join(here, '..', 'properties.jsonl'))]
 p = [x for x in p if x['id'] == pid][0]
 T = open(os.path.join(here, 'seed_prompt_template.txt')).read()
+focus = sys.argv[3] if len(sys.argv) > 3 else None
+if focus:
+    T = T.replace("Deliverables, all under", "Where to look (to spread several independent regressions over the code base, yours should live here): " + focus + "\n\nDeliverables, all under", 1)
 print(T.format(wt=wt, pid=pid, title=p['title'], statement=p['statement'], quant=p['quantifier']['text'],
                files=', '.join(p['anchors']['files'])))
